@@ -11,7 +11,7 @@ from typing import Dict, List, Optional, Tuple
 from ..fsm_model import exc_hierarchy
 from ..layout import Affine
 from ..srcmodel import AnalysisError, ClassRef, norm
-from ..sym import SymClient, empty_state
+from ..sym import SymClient, empty_state, inline_pure_calls
 from .c06 import aff_of_term
 
 TYPES = ('Success', 'Pending', 'Warning', 'Cancel', 'Failure')
@@ -32,7 +32,8 @@ def run(repo, rep):
     # ---------------------------------------------------------------- W1
     add = repo.func('statuses', 'add_status')
     rep.analysed(add)
-    c = SymClient(repo, add, event_of=lambda *a: None, hierarchy=hier,
+    helper = lambda fi: fi.module.name == 'statuses' and fi.cls is None and fi.name not in ('add_status', 'register_statuses')
+    c = SymClient(repo, add, event_of=lambda *a: None, hierarchy=hier, inline=helper,
                   store_event=lambda t: t in ('_general_status_dict[]', '_status_dict[]'))
     c.run(empty_state())
     stores = [(e, s) for e, s in c.log if e.kind == 'store']
@@ -42,7 +43,7 @@ def run(repo, rep):
         probs.append('unexpected signature %s' % add.params)
     seen = {'general': 0, 'specific': 0}
     for e, s in stores:
-        key, val = e.args
+        key, val = (inline_pure_calls(x, repo, 'statuses') for x in e.args)
         general = e.callee.startswith('_general')
         seen['general' if general else 'specific'] += 1
         cmd_none = any(cn in ('+%s is None' % p_cmd, '-%s is not None' % p_cmd, '-%s' % p_cmd) for cn in e.conds)
@@ -138,7 +139,7 @@ def run(repo, rep):
     init = sc.find_method('__init__')
     rep.analysed(init)
     vparam, cparam = init.params[1], init.params[2]
-    c = SymClient(repo, init, event_of=lambda *a: None, hierarchy=hier, store_event=lambda t: t.startswith('self.'))
+    c = SymClient(repo, init, event_of=lambda *a: None, hierarchy=hier, inline=helper, store_event=lambda t: t.startswith('self.'))
     fin = c.final_states(c.run(empty_state()))
     probs = []
     spec = '_status_dict.get((%s.command_field, %s))' % (cparam, vparam)
@@ -146,6 +147,9 @@ def run(repo, rep):
     unknown = repo.try_fold(ast.parse('UNKNOWN', mode='eval').body, st)
     for s, how in fin:
         tterm = s.field('EXT:self', 'status_type')
+        if tterm is not None:
+            tterm = inline_pure_calls(tterm, repo, 'statuses')
+        s = type(s)(s.env, s.heap, tuple(cn[0] + inline_pure_calls(cn[1:], repo, 'statuses') if cn[:1] in '+-' else cn for cn in s.conds), s.trail, s.ret)
         if tterm is None:
             probs.append('status_type not assigned on a path')
             continue
